@@ -415,6 +415,20 @@ Theorem C17_generated_facts_present : GEN_MERMAID_OK = true /\ GEN_EXPORT_OK = t
 Proof. split; reflexivity. Qed.
 Print Assumptions C17_generated_facts_present.
 
+(* ====================================================================================== *)
+(* Glue (theories/Glue/GluePreExport.v): the edge enumeration [desc_p] (every node below s paired with its
+   _parent node) is, as (parent id, id, payload) triples, exactly the row list of the mutation machine
+   (Mut/SurgeryFacts.v [rows], the flattening all C01-C04 / heap theorems speak about); C12 identifies the
+   same row list with the (parent id, node) enumeration of the serialisation model. *)
+From NT Require SurgeryFacts GluePreExport.
+
+Theorem C17_edges_are_the_machines_rows : forall t,
+  map GluePreExport.edge_row (desc_p t) = SurgeryFacts.rows (rid t) (rch t).
+Proof. exact GluePreExport.desc_p_rows. Qed.
+Print Assumptions C17_edges_are_the_machines_rows.
+
+(* with C12_preorder_is_the_machines_rows (same row list) the edges are also in the serialisation order *)
+
 (* ==== PART MERMAIDDEF: to_mermaid_flowchart called without options (model theories/Forest/MiscMermaid.v,
    correspondence Cases/CaseMiscMermaid.v, harness parts_misc.MERMAIDDEF): the default arguments of the signatures are
    ONE options record of Export.v, lifted from the source. ==== *)
